@@ -554,11 +554,23 @@ class _AdbIOManagerAsync(object):
         """
         packed = msg.pack()
         _LOGGER.debug("bulk_write(%d): %r", len(packed), packed)
-        await self._transport.bulk_write(packed, adb_info.transport_timeout_s)
+        await self._write_all(packed, adb_info)
 
         if msg.data:
             _LOGGER.debug("bulk_write(%d): %r", len(msg.data), msg.data)
-            await self._transport.bulk_write(msg.data, adb_info.transport_timeout_s)
+            await self._write_all(msg.data, adb_info)
+
+    async def _write_all(self, data, adb_info):
+        """Write all of ``data``; a transport may accept fewer bytes than it was given."""
+        start = time.time()
+        while True:
+            num_written = await self._transport.bulk_write(data, adb_info.transport_timeout_s)
+            if num_written is None or num_written >= len(data):
+                return
+
+            data = data[num_written:]
+            if time.time() - start > adb_info.read_timeout_s:
+                raise exceptions.AdbTimeoutError("Timeout: {} bytes were not written (transport_timeout_s = {}, read_timeout_s = {})".format(len(data), adb_info.transport_timeout_s, adb_info.read_timeout_s))
 
 
 class AdbDeviceAsync(object):
